@@ -108,8 +108,14 @@ def run(ctx):
         if g is None:
             continue
         case, info = g
+        if rng.random() < 0.5:
+            # every documented way an assembly can be refused (each error path builds its own exception)
+            from props.c07 import perturb
+            case = perturb(rng, case, info, modes=["unused", "invalid-vector", "duplicate", "rc-duplicate",
+                                                    "palindrome", "missing", "invalid-module", "same-object"])
+            ctx.note("refusal:" + case["mode"])
         for e in [case["vector"]] + case["mods"]:
-            if rng.random() < 0.35:
+            if rng.random() < 0.2:
                 e["word"] = malformed_for(rng, asm.cls_by_name(e["cls"]), kits)
         if rng.random() < 0.2:
             case["mods"].append(case["mods"][0])
